@@ -84,7 +84,9 @@ pub fn input_get(push_state: &mut PushState, _instruction_cache: &InstructionCac
             if let Some(input) = push_state.input_stack.peek_oldest() {
                 let list_index =
                     i32::max(i32::min(input.body.values.len() as i32 - 1, index), 0) as usize;
-                push_state.bool_stack.push(input.body.values[list_index]);
+                if let Some(bit) = input.body.values.get(list_index) {
+                    push_state.bool_stack.push(*bit);
+                }
             }
         }
     }
